@@ -64,7 +64,6 @@ func (s *synthSC) Execute(args *vmcommon.ContractCallInput) vmcommon.ReturnCode 
 	w.invoked[s.idx]++
 	w.total++
 	self := synthAddr(s.idx)
-	wrote := 0
 	for i := range w.plan.Steps {
 		st := &w.plan.Steps[i]
 		if st.T != s.idx {
@@ -73,20 +72,16 @@ func (s *synthSC) Execute(args *vmcommon.ContractCallInput) vmcommon.ReturnCode 
 		switch st.Op {
 		case "set":
 			eei.SetStorage(st.Bytes(0), w.fresh())
-			wrote++
 		case "del":
 			eei.SetStorage(st.Bytes(0), nil)
-			wrote++
 		case "setf":
 			t := int(st.Int(0, 0))
 			if t < 0 || t >= maxSynth {
 				continue
 			}
 			eei.SetStorageForAddress(synthAddr(t), st.Bytes(0), w.fresh())
-			wrote++
 		case "xfer":
 			_ = eei.Transfer(userAddr(int(st.Int(0, 0))%8), self, big.NewInt(st.Int(1, 1)), nil, 0)
-			wrote++
 		case "call":
 			callee := int(st.Int(0, 0))
 			if callee <= s.idx || callee >= maxSynth || w.total > 60 {
@@ -100,17 +95,11 @@ func (s *synthSC) Execute(args *vmcommon.ContractCallInput) vmcommon.ReturnCode 
 		case "fail":
 			n := st.Int(0, -1)
 			if n < 0 || int(n) == inv {
-				if wrote > 0 {
-					w.failedAfterWrite = true
-				}
 				eei.AddReturnMessage("planned failure")
 				return vmcommon.UserError
 			}
 		case "gas":
 			if eei.UseGas(uint64(st.Int(0, 1))) != nil {
-				if wrote > 0 {
-					w.failedAfterWrite = true
-				}
 				eei.AddReturnMessage("out of gas")
 				return vmcommon.OutOfGas
 			}
@@ -214,11 +203,10 @@ func execSynth(c *simkit.Ctx) bool {
 		case "tx":
 			w.invoked = [maxSynth]int{}
 			w.total = 0
-			w.failedAfterWrite = false
-			before := e.spy.failedNested
+			before, okBefore := e.spy.failedNested, e.spy.okTxAfterFailedWrites
 			res := e.call(userAddr(0), synthAddr(0), "run", nil, bi(0), uint64(st.Int(0, 1<<40)), true)
 			c.Eventf("tx rc=%s nestedFailed=%d", res.rc, e.spy.failedNested-before)
-			if res.ok && e.spy.failedNested > before && w.failedAfterWrite {
+			if e.spy.okTxAfterFailedWrites > okBefore {
 				nontrivial = true
 			}
 			e.ch.nonce++
